@@ -218,7 +218,7 @@ def RecOK (p : GbRec × RecLayout) : Prop := wf p.1 = true ∧ noSlashEnd p.1 p.
 theorem plain_init (p : GbRec × RecLayout) (h : RecOK p) : ∀ l ∈ initOf p, Plain l := by
   intro l hl
   have hmem : l ∈ layout p.1 p.2 := by rw [layout_eq_init]; exact List.mem_append_left _ hl
-  refine ⟨nl_not_mem_of_PL (PL_layout p.1 p.2 h.1 l hmem), ?_⟩
+  refine ⟨nl_not_mem_of_PL (PL_layout p.1 p.2 (wf_loose h.1).1 l hmem), ?_⟩
   have := h.2
   unfold noSlashEnd at this
   rw [List.all_eq_true] at this
@@ -415,7 +415,7 @@ theorem parseFlat_layoutFile (rs : List GbRec) (ℓ : FileLayout) (H : List Str)
     intro l hl
     obtain ⟨L, hL, hlL⟩ := List.mem_flatten.mp hl
     obtain ⟨p, hp, rfl⟩ := List.mem_map.mp hL
-    exact nl_not_mem_of_PL (PL_layout p.1 p.2 (hok p hp).1 l hlL)
+    exact nl_not_mem_of_PL (PL_layout p.1 p.2 (wf_loose (hok p hp).1).1 l hlL)
   have hne2 : H ++ recordsLines rs ℓ.recs ≠ [] := List.append_ne_nil_of_right_ne_nil _ hRLne
   have hnl2 : ∀ l ∈ H ++ recordsLines rs ℓ.recs, '\n' ∉ l := by
     intro l hl; rcases List.mem_append.mp hl with h | h
